@@ -1,3 +1,592 @@
 package main
 
-func runConcurrent(seed int64, raft bool) *JCase { return &JCase{Mode: "conc-stub", Seed: seed} }
+import (
+	"context"
+	"errors"
+	"fmt"
+	"math/rand"
+	"sort"
+	"strconv"
+	"sync"
+	"sync/atomic"
+	"time"
+
+	"github.com/hashicorp/go-hclog"
+	"google.golang.org/grpc"
+
+	"github.com/hashicorp/consul/internal/storage"
+	"github.com/hashicorp/consul/internal/storage/inmem"
+	"github.com/hashicorp/consul/internal/storage/raft"
+)
+
+// ---------------------------------------------------------------- a single-node Raft stand-in
+
+// raftHandle applies each log entry to the backend's FSM side synchronously and in index order,
+// as the Raft FSM goroutine does (cf. internal/storage/raft/conformance_test.go).
+type raftHandle struct {
+	mu      sync.Mutex
+	index   uint64
+	backend *raft.Backend
+}
+
+func (h *raftHandle) Apply(msg []byte) (any, error) {
+	h.mu.Lock()
+	defer h.mu.Unlock()
+	h.index++
+	rsp := h.backend.Apply(msg, h.index)
+	if err, ok := rsp.(error); ok {
+		return nil, err
+	}
+	return rsp, nil
+}
+func (h *raftHandle) IsLeader() bool                                { return true }
+func (h *raftHandle) EnsureStrongConsistency(context.Context) error { return nil }
+func (h *raftHandle) DialLeader() (*grpc.ClientConn, error) {
+	return nil, errors.New("leader does not dial itself")
+}
+
+// ---------------------------------------------------------------- recording
+
+type cop struct {
+	op         JOp
+	out        JOut
+	start, end int64
+	worker     int
+	pos        int // commit position (1..m) or 0
+	gap        int // for non-commits: number of commits before it
+}
+
+type wrec struct {
+	q       JQuery
+	openEnd int64
+	events  []JOut
+	reads   []JOut // the read made right after each event (same index)
+	err     string
+}
+
+func nextEvent(ctx context.Context, w storage.Watch) (JOut, error) {
+	ev, err := w.Next(ctx)
+	if err != nil {
+		return JOut{}, err
+	}
+	switch {
+	case ev.GetUpsert() != nil:
+		r := fromPB(ev.GetUpsert().Resource)
+		return JOut{T: "event", Ev: "upsert", Res: &r}, nil
+	case ev.GetDelete() != nil:
+		r := fromPB(ev.GetDelete().Resource)
+		return JOut{T: "event", Ev: "delete", Res: &r}, nil
+	}
+	return JOut{T: "event", Ev: "eos"}, nil
+}
+
+// ---------------------------------------------------------------- one concurrent history
+
+func runConcurrent(seed int64, useRaft bool) *JCase {
+	rng := rand.New(rand.NewSource(seed))
+	c := &JCase{Mode: "conc-inmem", Seed: seed}
+	ctx, cancel := context.WithCancel(context.Background())
+	defer cancel()
+
+	var be storage.Backend
+	if useRaft {
+		c.Mode = "conc-raft"
+		h := &raftHandle{}
+		b, err := raft.NewBackend(h, hclog.NewNullLogger())
+		if err != nil {
+			panic(err)
+		}
+		h.backend = b
+		go b.Run(ctx)
+		be = b
+	} else {
+		b, err := inmem.NewBackend()
+		if err != nil {
+			panic(err)
+		}
+		go b.Run(ctx)
+		be = b
+	}
+
+	var clock int64
+	tick := func() int64 { return atomic.AddInt64(&clock, 1) }
+
+	ids := []JID{{G: "g", K: "k", P: "p", N: "n", Nm: "a"}, {G: "g", K: "k", P: "p", N: "n", Nm: "ab"}, {G: "g", K: "k", P: "p", N: "m", Nm: "a"}}
+	if rng.Intn(3) == 0 {
+		ids = ids[:1+rng.Intn(2)]
+	}
+	marker := JID{G: "g", K: "k", P: "p", N: "n", Nm: "zz"}
+	typ := storage.UnversionedType{Group: "g", Kind: "k"}
+	ten := func(p, n string) *JID { return &JID{P: p, N: n} }
+
+	// the global watcher: everything of type g/k, opened before any write
+	gw, err := be.WatchList(ctx, typ, pbID(*ten("*", "*"), "", "").Tenancy, "")
+	if err != nil {
+		panic(err)
+	}
+	var global []JOut
+	gdone := make(chan struct{})
+	go func() {
+		defer close(gdone)
+		for {
+			ev, err := nextEvent(ctx, gw)
+			if err != nil {
+				return
+			}
+			global = append(global, ev)
+			if ev.Res != nil && ev.Res.ID == marker {
+				return
+			}
+		}
+	}()
+
+	nWorkers := 2 + rng.Intn(5)
+	nOps := 6 + rng.Intn(14)
+	recs := make([][]*cop, nWorkers)
+	var wg sync.WaitGroup
+	for w := 0; w < nWorkers; w++ {
+		wg.Add(1)
+		wseed := rng.Int63()
+		go func(w int) {
+			defer wg.Done()
+			r := rand.New(rand.NewSource(wseed))
+			known := map[string]JRes{} // what this worker last saw per id
+			for i := 0; i < nOps; i++ {
+				id := ids[r.Intn(len(ids))]
+				var op JOp
+				cur, have := known[id.key()]
+				switch x := r.Intn(100); {
+				case x < 45:
+					res := JRes{ID: id, GV: "v1", Uid: "u" + strconv.Itoa(1+r.Intn(2)), Data: r.Intn(50)}
+					if have && r.Intn(10) < 8 {
+						res.Uid, res.Ver = cur.Uid, cur.Ver
+					} else if r.Intn(3) == 0 {
+						res.Ver = strconv.Itoa(1 + r.Intn(30))
+					}
+					if r.Intn(4) == 0 {
+						res.Own = &JOwner{ID: ids[0], Uid: "u1"}
+					}
+					op = JOp{T: "write", Res: &res}
+				case x < 60:
+					op = JOp{T: "delete", ID: &id, GV: "v1", Uid: "u" + strconv.Itoa(1+r.Intn(2)), Vsn: strconv.Itoa(1 + r.Intn(30))}
+					if have && r.Intn(10) < 8 {
+						op.Uid, op.Vsn = cur.Uid, cur.Ver
+					}
+				case x < 85:
+					op = JOp{T: "read", ID: &id, GV: "v1"}
+				case x < 95:
+					q := &JQuery{G: "g", K: "k", P: "p", N: []string{"n", "*"}[r.Intn(2)], Pre: []string{"", "a", "ab"}[r.Intn(3)]}
+					op = JOp{T: "list", Q: q}
+				default:
+					op = JOp{T: "listowner", ID: &ids[0], Uid: "u1"}
+				}
+				rec := &cop{op: op, worker: w, start: tick()}
+				switch op.T {
+				case "write":
+					res, err := be.WriteCAS(ctx, toPB(*op.Res))
+					if err != nil {
+						rec.out = errOut(err)
+					} else {
+						s := fromPB(res)
+						rec.out = JOut{T: "res", Res: &s}
+						known[id.key()] = s
+					}
+				case "delete":
+					if err := be.DeleteCAS(ctx, pbID(*op.ID, op.GV, op.Uid), op.Vsn); err != nil {
+						rec.out = errOut(err)
+					} else {
+						rec.out = JOut{T: "ok"}
+					}
+				case "read":
+					res, err := be.Read(ctx, storage.EventualConsistency, pbID(*op.ID, op.GV, ""))
+					if err != nil {
+						rec.out = errOut(err)
+						if rec.out.Err == "notfound" {
+							delete(known, id.key())
+						}
+					} else {
+						s := fromPB(res)
+						rec.out = JOut{T: "res", Res: &s}
+						known[id.key()] = s
+					}
+				case "list":
+					l, err := be.List(ctx, storage.EventualConsistency, typ, pbID(JID{P: op.Q.P, N: op.Q.N}, "", "").Tenancy, op.Q.Pre)
+					if err != nil {
+						rec.out = errOut(err)
+					} else {
+						rec.out = JOut{T: "list", List: fromPBList(l)}
+					}
+				case "listowner":
+					l, err := be.ListByOwner(ctx, pbID(*op.ID, "v1", op.Uid))
+					if err != nil {
+						rec.out = errOut(err)
+					} else {
+						rec.out = JOut{T: "list", List: fromPBList(l)}
+					}
+				}
+				rec.end = tick()
+				recs[w] = append(recs[w], rec)
+				if r.Intn(4) == 0 {
+					time.Sleep(time.Duration(r.Intn(40)) * time.Microsecond)
+				}
+			}
+		}(w)
+	}
+
+	// extra watchers with their own queries, opened while the writers run; each reads the id
+	// of every event right after receiving it
+	nWatch := 1 + rng.Intn(3)
+	wrecs := make([]*wrec, nWatch)
+	wctx, wcancel := context.WithCancel(ctx)
+	var wwg sync.WaitGroup
+	for i := 0; i < nWatch; i++ {
+		q := JQuery{G: "g", K: "k", P: "p", N: []string{"n", "*", "m"}[rng.Intn(3)], Pre: []string{"", "", "a", "ab"}[rng.Intn(4)]}
+		wr := &wrec{q: q}
+		wrecs[i] = wr
+		delay := time.Duration(rng.Intn(300)) * time.Microsecond
+		wwg.Add(1)
+		go func() {
+			defer wwg.Done()
+			time.Sleep(delay)
+			w, err := be.WatchList(wctx, typ, pbID(JID{P: q.P, N: q.N}, "", "").Tenancy, q.Pre)
+			if err != nil {
+				wr.err = err.Error()
+				return
+			}
+			wr.openEnd = tick()
+			defer w.Close()
+			for {
+				ev, err := nextEvent(wctx, w)
+				if err != nil {
+					return
+				}
+				var rd JOut
+				if ev.Res != nil {
+					res, err := be.Read(wctx, storage.EventualConsistency, pbID(ev.Res.ID, ev.Res.GV, ""))
+					if err != nil {
+						rd = errOut(err)
+					} else {
+						s := fromPB(res)
+						rd = JOut{T: "res", Res: &s}
+					}
+				}
+				wr.events = append(wr.events, ev)
+				wr.reads = append(wr.reads, rd)
+				if ev.Res != nil && ev.Res.ID == marker {
+					return
+				}
+			}
+		}()
+	}
+
+	wg.Wait()
+	// the marker: the last commit; every watcher that can see it stops at it
+	mrec := &cop{op: JOp{T: "write", Res: &JRes{ID: marker, GV: "v1", Uid: "um", Data: 0}}, worker: nWorkers, start: tick()}
+	mres, err := be.WriteCAS(ctx, toPB(*mrec.op.Res))
+	if err != nil {
+		panic(err)
+	}
+	ms := fromPB(mres)
+	mrec.out = JOut{T: "res", Res: &ms}
+	mrec.end = tick()
+	select {
+	case <-gdone:
+	case <-time.After(20 * time.Second):
+		c.Oracle = "conc-global-watch-stalled: the wildcard watch did not deliver the marker commit within 20s"
+		c.Sig = map[string]string{"kind": "conc-global-watch-stalled"}
+		wcancel()
+		return c
+	}
+	// watchers that cannot see the marker are stopped after a grace period
+	done := make(chan struct{})
+	go func() { wwg.Wait(); close(done) }()
+	select {
+	case <-done:
+	case <-time.After(30 * time.Millisecond):
+	}
+	wcancel()
+	wwg.Wait()
+	gw.Close()
+
+	var all []*cop
+	for _, l := range recs {
+		all = append(all, l...)
+	}
+	all = append(all, mrec)
+	linearize(c, all, global, wrecs)
+	c.Stats = map[string]int{"workers": nWorkers, "ops": len(all), "commits": len(global) - 1, "watchers": nWatch}
+	if c.Oracle == "" {
+		oracleSched(c) // the clauses of the property on the witness history (CAS exclusion, uids, lifetimes, reads)
+		st := c.Stats
+		st["workers"], st["ops"], st["commits"], st["watchers"] = nWorkers, len(all), len(global)-1, nWatch
+	}
+	return c
+}
+
+// ---------------------------------------------------------------- witness linearization
+
+func failConc(c *JCase, kind, detail string) {
+	if c.Oracle == "" {
+		c.Oracle = kind + ": " + detail
+		c.Sig = map[string]string{"kind": kind}
+	}
+}
+
+func applyEv(state map[string]JRes, e JOut) {
+	if e.Ev == "upsert" {
+		state[e.Res.ID.key()] = *e.Res
+	} else if e.Ev == "delete" {
+		delete(state, e.Res.ID.key())
+	}
+}
+
+// consistent: would the store in `state` have answered `out` to the (non-committing) op?
+func consistent(state map[string]JRes, o *cop) bool {
+	op, out := o.op, o.out
+	switch op.T {
+	case "write":
+		cur, live := state[op.Res.ID.key()]
+		switch out.Err {
+		case "wronguid":
+			return live && cur.Uid != op.Res.Uid
+		case "cas":
+			return (!live && op.Res.Ver != "") || (live && cur.Uid == op.Res.Uid && cur.Ver != op.Res.Ver)
+		}
+		return false
+	case "delete":
+		cur, live := state[op.ID.key()]
+		if out.T == "ok" { // a delete that hit nothing
+			return !live || cur.Uid != op.Uid
+		}
+		return out.Err == "cas" && live && cur.Uid == op.Uid && cur.Ver != op.Vsn
+	case "read":
+		cur, live := state[op.ID.key()]
+		switch out.T {
+		case "res":
+			return live && cur.GV == op.GV && resEq(cur, *out.Res)
+		case "gvm":
+			return live && cur.GV != op.GV && resEq(cur, *out.Res)
+		}
+		return out.Err == "notfound" && !live
+	case "list":
+		return sameList(listingOf(state, *op.Q), sortedByKey(out.List))
+	case "listowner":
+		var l []JRes
+		for _, r := range state {
+			if r.Own != nil && r.Own.ID == *op.ID && r.Own.Uid == op.Uid {
+				l = append(l, r)
+			}
+		}
+		return sameList(sortedByKey(l), sortedByKey(out.List))
+	}
+	return false
+}
+
+func linearize(c *JCase, all []*cop, global []JOut, wrecs []*wrec) {
+	// the global watch: end-of-snapshot first (the store was empty), then the commits in order
+	if len(global) == 0 || global[0].Ev != "eos" {
+		failConc(c, "conc-global-watch", "the wildcard watch opened on the empty store did not start with end-of-snapshot")
+		return
+	}
+	commits := global[1:]
+	m := len(commits)
+	// table after p commits
+	states := make([]map[string]JRes, m+1)
+	states[0] = map[string]JRes{}
+	for p, e := range commits {
+		s := copyMap(states[p])
+		applyEv(s, e)
+		states[p+1] = s
+	}
+	// attribute every commit to the operation that made it
+	used := map[*cop]bool{}
+	byPos := make([]*cop, m+1)
+	for p, e := range commits {
+		var best *cop
+		for _, o := range all {
+			if used[o] {
+				continue
+			}
+			switch {
+			case e.Ev == "upsert" && o.op.T == "write" && o.out.T == "res" && resEq(*o.out.Res, *e.Res):
+			case e.Ev == "delete" && o.op.T == "delete" && o.out.T == "ok" && *o.op.ID == e.Res.ID && o.op.Uid == e.Res.Uid && o.op.Vsn == e.Res.Ver:
+			default:
+				continue
+			}
+			if best == nil || o.end < best.end {
+				best = o
+			}
+		}
+		if best == nil {
+			failConc(c, "conc-event-without-operation", fmt.Sprintf("commit %d (%s %s v%s) was made by no recorded operation", p+1, e.Ev, e.Res.ID.Nm, e.Res.Ver))
+			return
+		}
+		used[best] = true
+		best.pos = p + 1
+		byPos[p+1] = best
+	}
+	for _, o := range all {
+		if o.op.T == "write" && o.out.T == "res" && o.pos == 0 {
+			failConc(c, "conc-write-without-event", fmt.Sprintf("successful write of %s v%s never reached the wildcard watch", o.out.Res.ID.Nm, o.out.Res.Ver))
+			return
+		}
+	}
+	// commit order must respect real time
+	for p := 1; p <= m; p++ {
+		for q := p + 1; q <= m; q++ {
+			if byPos[q].end < byPos[p].start {
+				failConc(c, "conc-commit-order-vs-real-time", fmt.Sprintf("commit %d finished before commit %d was invoked, yet is ordered after it", q, p))
+				return
+			}
+		}
+	}
+	// place the other operations
+	var rest []*cop
+	for _, o := range all {
+		if o.pos == 0 {
+			rest = append(rest, o)
+		}
+	}
+	sort.Slice(rest, func(i, j int) bool { return rest[i].start < rest[j].start })
+	for i, o := range rest {
+		lo, hi := 0, m
+		for p := 1; p <= m; p++ {
+			if byPos[p].end < o.start && p > lo {
+				lo = p
+			}
+			if byPos[p].start > o.end && p-1 < hi {
+				hi = p - 1
+			}
+		}
+		for _, e := range rest[:i] {
+			if e.end < o.start && e.gap > lo {
+				lo = e.gap
+			}
+		}
+		o.gap = -1
+		for g := lo; g <= hi; g++ {
+			if consistent(states[g], o) {
+				o.gap = g
+				break
+			}
+		}
+		if o.gap < 0 {
+			ob, _ := jsonStr(o.op)
+			rb, _ := jsonStr(o.out)
+			failConc(c, "conc-no-linearization", fmt.Sprintf("%s -> %s (worker %d) is explained by no state between commits %d and %d", ob, rb, o.worker, lo, hi))
+			return
+		}
+	}
+	// the witness history, as Store-level steps
+	gaps := make([][]*cop, m+1)
+	for _, o := range rest {
+		gaps[o.gap] = append(gaps[o.gap], o)
+	}
+	emitOp := func(o *cop) {
+		op, out := o.op, o.out
+		if op.T == "write" {
+			if out.T == "res" {
+				op = JOp{T: "writes", Res: out.Res, Vsn: o.op.Res.Ver}
+				out = JOut{T: "ok"}
+			} else {
+				// the version the backend drew for a refused write is not observable: any will do
+				r := *op.Res
+				op = JOp{T: "writes", Res: &r, Vsn: o.op.Res.Ver}
+				op.Res.Ver = "999999"
+			}
+		}
+		c.Steps = append(c.Steps, JStep{op, out})
+	}
+	for g := 0; g <= m; g++ {
+		if g > 0 {
+			emitOp(byPos[g])
+		}
+		for _, o := range gaps[g] {
+			emitOp(o)
+		}
+	}
+	// the watchers, against the commit order
+	for wi, w := range wrecs {
+		checkConcWatch(c, wi, w, commits, states)
+	}
+}
+
+func checkConcWatch(c *JCase, wi int, w *wrec, commits []JOut, states []map[string]JRes) {
+	if w.err != "" || len(w.events) == 0 {
+		return
+	}
+	var listing []JRes
+	i := 0
+	for ; i < len(w.events) && w.events[i].Ev != "eos"; i++ {
+		if w.events[i].Ev != "upsert" {
+			failConc(c, "conc-watch-delete-in-snapshot", fmt.Sprintf("watcher %d", wi))
+			return
+		}
+		listing = append(listing, *w.events[i].Res)
+	}
+	if i == len(w.events) {
+		return // stopped inside the snapshot
+	}
+	live := w.events[i+1:]
+	liveReads := w.reads[i+1:]
+	m := len(commits)
+	okT := -1
+	for t := m; t >= 0 && okT < 0; t-- {
+		if !sameList(sortedByKey(listing), listingOf(states[t], w.q)) {
+			continue
+		}
+		var exp []JOut
+		for _, e := range commits[t:] {
+			if qMatches(w.q, *e.Res) {
+				exp = append(exp, e)
+			}
+		}
+		good := len(live) <= len(exp)
+		for j := 0; good && j < len(live); j++ {
+			good = live[j].Ev == exp[j].Ev && resEq(*live[j].Res, *exp[j].Res)
+		}
+		if good {
+			okT = t
+			// complete when the watcher ran up to the marker
+			if n := len(live); n > 0 && live[n-1].Res.ID.Nm == "zz" && n != len(exp) {
+				failConc(c, "conc-watch-incomplete", fmt.Sprintf("watcher %d saw the marker after %d live events, %d matching commits follow its snapshot point %d", wi, n, len(exp), t))
+				return
+			}
+		}
+	}
+	if okT < 0 {
+		failConc(c, "conc-watch-sequence", fmt.Sprintf("watcher %d %v: listing %v then %d live events is not (match set of a state, then the matching commits after it in order)", wi, w.q, listing, len(live)))
+		return
+	}
+	// read-after-event: the read made after event j must show the id at or after that commit
+	pos := okT
+	for j, e := range live {
+		for pos < len(commits) && !(commits[pos].Ev == e.Ev && resEq(*commits[pos].Res, *e.Res)) {
+			pos++
+		}
+		pos++ // number of commits reflected by event j
+		key := e.Res.ID.key()
+		rd := liveReads[j]
+		ok := false
+		for t := pos; t <= len(commits) && !ok; t++ {
+			r, in := states[t][key]
+			ok = (rd.T == "err" && rd.Err == "notfound" && !in) || ((rd.T == "res" || rd.T == "gvm") && in && resEq(*rd.Res, r))
+		}
+		if !ok {
+			failConc(c, "conc-read-older-than-event", fmt.Sprintf("watcher %d: after %s %s v%s the read returned %v", wi, e.Ev, e.Res.ID.Nm, e.Res.Ver, rd))
+			return
+		}
+	}
+	for j := 0; j < i; j++ { // reads after snapshot events: at or after the snapshot point
+		e, rd := w.events[j], w.reads[j]
+		ok := false
+		for t := okT; t <= len(commits) && !ok; t++ {
+			r, in := states[t][e.Res.ID.key()]
+			ok = (rd.T == "err" && rd.Err == "notfound" && !in) || ((rd.T == "res" || rd.T == "gvm") && in && resEq(*rd.Res, r))
+		}
+		if !ok {
+			failConc(c, "conc-read-older-than-event", fmt.Sprintf("watcher %d: after the snapshot row %s v%s the read returned %v", wi, e.Res.ID.Nm, e.Res.Ver, rd))
+			return
+		}
+	}
+}
